@@ -169,13 +169,20 @@ func (c *ChunkBuffer) ChunkedString(level, offset int) string {
 		// prefix operator
 		case Prefix:
 			if next := c.nextChunk(); next != nil {
+				// Prefix operator on a group like "!(...)", the group follows the operator on the same line
+				if next.Type == Group {
+					if inside := c.nextChunk(); inside != nil {
+						buf.WriteString(c.chunkGroupOperator(state, inside, chunk.buffer))
+					}
+					continue
+				}
 				buf.WriteString(c.chunkString(state, chunk.buffer+next.buffer))
 			}
 		// group operator
 		case Group:
 			// If group operator, inside expressions should be printed on the same line
 			if next := c.nextChunk(); next != nil {
-				buf.WriteString(c.chunkGroupOperator(state, next))
+				buf.WriteString(c.chunkGroupOperator(state, next, ""))
 			}
 		// infix operator
 		case Infix:
@@ -234,6 +241,10 @@ OUT:
 		}
 		break
 	}
+	// A group must be chunked as a group: taking its opening parenthesis as the operand would lose the closing one
+	if peek.Type == Group {
+		return ""
+	}
 	// Finally, add token buffer
 	expr.WriteString(" " + peek.buffer)
 
@@ -272,13 +283,18 @@ func (c *ChunkBuffer) chunkLineComment(state *ChunkState, chunk *Chunk) string {
 }
 
 // chunkGroupOperator() returns chunk group expression string
-func (c *ChunkBuffer) chunkGroupOperator(state *ChunkState, chunk *Chunk) string {
+func (c *ChunkBuffer) chunkGroupOperator(state *ChunkState, chunk *Chunk, prefix string) string {
 	expr := chunk.buffer
+	// Depth of the groups opened inside this group
+	depth := 0
+	if chunk.Type == Group && chunk.buffer == "(" {
+		depth++
+	}
 
 	for {
 		next := c.nextChunk()
 		if next == nil {
-			return c.chunkString(state, "("+expr+")")
+			return c.chunkString(state, prefix+"("+expr+")")
 		}
 
 		switch {
@@ -286,8 +302,17 @@ func (c *ChunkBuffer) chunkGroupOperator(state *ChunkState, chunk *Chunk) string
 			expr += next.buffer
 			expr += c.nextLine(state)
 			state.reset()
-		case next.buffer == ")":
-			return c.chunkString(state, "("+expr+")")
+		case next.Type == Group && next.buffer == ")":
+			if depth == 0 {
+				return c.chunkString(state, prefix+"("+expr+")")
+			}
+			depth--
+			expr += next.buffer
+		case next.Type == Group && next.buffer == "(":
+			depth++
+			expr += " " + next.buffer
+		case strings.HasSuffix(expr, "("):
+			expr += next.buffer
 		default:
 			expr += " " + next.buffer
 		}
